@@ -204,47 +204,58 @@ func (c *Ctx) ruleStepDom(rule string) {
 		k := key(rule, "schema.CallableStepSchema.Call", "success only for a declared output ID whose data passed the output schema")
 		if c.outputLookupDominatesAccept() {
 			okVal := true
-			ei := core.ErrorResultIndex(fn.Signature)
-			for _, r := range core.ReturnsOf(fn) {
-				e := core.RetVal(r, ei)
-				if c.M.ProvablyNonNilError(e, r.Block()) {
-					continue
-				}
-				call, ok := e.(*ssa.Call)
-				if ok && c.calledMethodName(call) == "Validate" {
-					continue
-				}
-				// or: a nil error returned where the declared output's Validate was found to return nil
-				passed := false
-				if core.IsNilConst(e) {
-					for _, cond := range core.CondsAt(r.Block()) {
-						x, neq, isNil := core.NilCmp(cond.V)
-						if !isNil || neq == cond.True {
-							continue
-						}
-						if vc, isCall := core.Unwrap(x).(*ssa.Call); isCall && c.calledMethodName(vc) == "Validate" {
-							v := vc.Call.Value
-							if !vc.Call.IsInvoke() && len(vc.Call.Args) > 0 {
-								v = vc.Call.Args[0]
+			var carries func(f *ssa.Function, depth int) bool
+			carries = func(f *ssa.Function, depth int) bool {
+				ei := core.ErrorResultIndex(f.Signature)
+				for _, r := range core.ReturnsOf(f) {
+					e := core.RetVal(r, ei)
+					if c.M.ProvablyNonNilError(e, r.Block()) {
+						continue
+					}
+					call, ok := e.(*ssa.Call)
+					if ok && c.calledMethodName(call) == "Validate" {
+						continue
+					}
+					// or: a nil error returned where the declared output's Validate was found to return nil
+					passed := false
+					if core.IsNilConst(e) {
+						for _, cond := range core.CondsAt(r.Block()) {
+							x, neq, isNil := core.NilCmp(cond.V)
+							if !isNil || neq == cond.True {
+								continue
 							}
-							for i := 0; i < 4; i++ {
-								switch y := v.(type) {
-								case *ssa.Extract:
-									v = y.Tuple
-								case *ssa.UnOp:
-									v = y.X
+							// ... or where a verdict helper of the same receiver, of which the same holds, returned nil
+							if hc, isCall := core.Unwrap(x).(*ssa.Call); isCall && depth < 2 {
+								if h := c.verdictHelper(f, hc); h != nil && carries(h, depth+1) {
+									passed = true
 								}
 							}
-							if _, isLk := v.(*ssa.Lookup); isLk {
-								passed = true
+							if vc, isCall := core.Unwrap(x).(*ssa.Call); isCall && c.calledMethodName(vc) == "Validate" {
+								v := vc.Call.Value
+								if !vc.Call.IsInvoke() && len(vc.Call.Args) > 0 {
+									v = vc.Call.Args[0]
+								}
+								for i := 0; i < 4; i++ {
+									switch y := v.(type) {
+									case *ssa.Extract:
+										v = y.Tuple
+									case *ssa.UnOp:
+										v = y.X
+									}
+								}
+								if _, isLk := v.(*ssa.Lookup); isLk {
+									passed = true
+								}
 							}
 						}
 					}
+					if !passed {
+						return false
+					}
 				}
-				if !passed {
-					okVal = false
-				}
+				return true
 			}
+			okVal = carries(fn, 0)
 			if okVal {
 				c.R.Ok(rule, k, c.M.Pos(fn.Pos()), "accepting returns of Call", "dominated by a successful lookup of the output ID in the outputs table; the returned error is the output schema's Validate verdict")
 			} else {
@@ -312,7 +323,22 @@ func (c *Ctx) ruleStepErrors(rule string) {
 		}
 		k := key(rule, w.fn, desc+" yields "+w.typ)
 		found, bad := 0, ""
+		// the returns of the function, and of the same-receiver helpers whose error it hands on unchanged
+		type retOf struct {
+			r  *ssa.Return
+			ei int
+		}
+		var rets []retOf
 		for _, r := range core.ReturnsOf(fn) {
+			rets = append(rets, retOf{r, ei})
+		}
+		for _, h := range c.verdictHelpersOf(fn) {
+			for _, r := range core.ReturnsOf(h) {
+				rets = append(rets, retOf{r, core.ErrorResultIndex(h.Signature)})
+			}
+		}
+		for _, ro := range rets {
+			r, ei := ro.r, ro.ei
 			// which failure does this return belong to?
 			match := false
 			for _, cond := range core.CondsAt(r.Block()) {
@@ -430,4 +456,64 @@ func (c *Ctx) ruleStepData(rule string) {
 		c.R.Unresolved(rule, "insert site of the per-run step data table")
 	}
 	c.R.Floor(rule, 1)
+}
+
+// verdictHelper: call is a static call, made in f, of a method h of f's receiver whose last result is an error that f
+// tests and, where it is non-nil, returns unchanged as its own error ("if err := s.check(..); err != nil { return .., err }").
+// Such a helper's verdict is f's verdict: rules that look for facts on f's accepting paths may look at h's.
+func (c *Ctx) verdictHelper(f *ssa.Function, call *ssa.Call) *ssa.Function {
+	h := call.Call.StaticCallee()
+	if h != nil && len(h.Blocks) == 0 && h.Origin() != nil {
+		h = h.Origin() // a method of a generic type called inside the generic body: the body is the origin's
+	}
+	if h == nil || len(h.Blocks) == 0 {
+		if cs := c.M.Callees(&call.Call); len(cs) == 1 && !call.Call.IsInvoke() {
+			h = cs[0]
+		}
+	}
+	if h != nil && h.Origin() != nil && len(h.Origin().Blocks) > 0 {
+		h = h.Origin() // the generic body, not the instantiation wrapper around it
+	}
+	if h == nil || h == f || len(h.Blocks) == 0 || len(f.Params) == 0 || len(call.Call.Args) == 0 || call.Call.Args[0] != ssa.Value(f.Params[0]) {
+		return nil
+	}
+	hei, fei := core.ErrorResultIndex(h.Signature), core.ErrorResultIndex(f.Signature)
+	if hei < 0 || fei < 0 {
+		return nil
+	}
+	var errVal ssa.Value = call
+	if h.Signature.Results().Len() > 1 {
+		errVal = nil
+		for _, r := range *call.Referrers() {
+			if ex, ok := r.(*ssa.Extract); ok && ex.Index == hei {
+				errVal = ex
+			}
+		}
+	}
+	if errVal == nil {
+		return nil
+	}
+	for _, r := range core.ReturnsOf(f) {
+		if core.RetVal(r, fei) == errVal {
+			return h
+		}
+	}
+	return nil
+}
+
+// verdictHelpersOf: the verdict helpers called in f.
+func (c *Ctx) verdictHelpersOf(f *ssa.Function) []*ssa.Function {
+	var out []*ssa.Function
+	seen := map[*ssa.Function]bool{}
+	for _, b := range f.Blocks {
+		for _, in := range b.Instrs {
+			if call, ok := in.(*ssa.Call); ok {
+				if h := c.verdictHelper(f, call); h != nil && !seen[h] {
+					seen[h] = true
+					out = append(out, h)
+				}
+			}
+		}
+	}
+	return out
 }
